@@ -102,6 +102,8 @@ def smt_obligations(tier):
     return [ZOb("C07.smt_equality", smt_equality, "equality_test on int|float operands over the reals, any delta > 0: symmetric; within tolerance => equal; beyond => not equal; two ints exact"),
             ZOb("C07.smt_equality_reach", smt_equality_reach, "twin: a float equals a different int within the tolerance", expect="sat")]
 
+CANARIES = {'harness/C07_output.py': 'stub_canary()'}   # harness file -> native call that must return True, else its stubs are dead
+
 
 def obligations(tier):
     obs = []
